@@ -4,6 +4,7 @@ use std::io::{self, BufRead, Write};
 
 mod merge;
 mod backup;
+mod copy;
 
 fn main() {
     let args: Vec<String> = std::env::args().collect();
@@ -42,6 +43,15 @@ fn main() {
                 let line = line.unwrap();
                 writeln!(out, "{}", backup::nextnum_line(&args[2], &line)).unwrap();
             }
+        }
+        "copy" => {
+            out.flush().unwrap();
+            copy::copy_main(&args[2..]);
+        }
+        "channel" => {
+            out.flush().unwrap();
+            let lines: Vec<String> = stdin.lock().lines().map(|l| l.unwrap()).collect();
+            copy::channel_main(args[2].parse().unwrap(), lines);
         }
         other => {
             eprintln!("unknown subcommand {}", other);
